@@ -180,7 +180,7 @@ func vsNoAcct(D []string) M {
 // vsGetters evaluates the real account getters at the instants ts.
 func vsGetters(D []string, va *vestingtypes.ClawbackVestingAccount, ts []int64) M {
 	g := M{"ts": ts}
-	var vested, unvested, unlocked, lockedup, lockedcoins []map[string]string
+	var vested, unvested, unlocked, lockedup, lockedcoins, unlockedvested, lockedupvested []map[string]string
 	for _, t := range ts {
 		bt := time.Unix(vsBase+t, 0)
 		vested = append(vested, vsCoinsOut(D, va.GetVestedCoins(bt)))
@@ -188,8 +188,14 @@ func vsGetters(D []string, va *vestingtypes.ClawbackVestingAccount, ts []int64) 
 		unlocked = append(unlocked, vsCoinsOut(D, va.GetUnlockedCoins(bt)))
 		lockedup = append(lockedup, vsCoinsOut(D, va.GetLockedUpCoins(bt)))
 		lockedcoins = append(lockedcoins, vsCoinsOut(D, va.LockedCoins(bt)))
+		// the cap of the two schedules as the account reports it, and its complement within the vested part
+		unlockedvested = append(unlockedvested, vsCoinsOut(D, va.GetUnlockedVestedCoins(bt)))
+		lockedupvested = append(lockedupvested, vsCoinsOut(D, va.GetLockedUpVestedCoins(bt)))
 	}
 	g["vested"], g["unvested"], g["unlocked"], g["lockedup"], g["lockedcoins"] = vested, unvested, unlocked, lockedup, lockedcoins
+	g["unlockedvested"], g["lockedupvested"] = unlockedvested, lockedupvested
+	// nothing is delegated in any account this driver builds or reads (recorded, checked by the trace specification)
+	g["delegated"] = vsCoinsOut(D, va.DelegatedFree.Add(va.DelegatedVesting...))
 	return g
 }
 
